@@ -37,6 +37,10 @@ import (
 // Bounds are an order of magnitude above measured behaviour (Close <= 1.3 s, deadline overshoot
 // ~1 ms), and a timing verdict is reported only if it reproduces in 2 of 3 re-runs of the case.
 
+// c15KnownHOL is the key of the recorded known finding (known_findings.txt): a verdict under this key
+// cannot fail a run, so it is reported on first sight, without the 2-of-3 re-runs (each costs ~25 s).
+const c15KnownHOL = "C15/hang/behind-stalled-session-tcp"
+
 const (
 	c15BoundMs = 15000 // a Close, and any call a close wakes, is over within this
 	c15PropMs  = 2000  // allowance for a close to reach the other end
@@ -497,6 +501,21 @@ func c15RunDeadline(c *core.Ctx, k c15Case) *c15Out {
 	return o
 }
 
+// c15Bucket names the size class of a count for the histograms.
+func c15Bucket(n int) string {
+	switch {
+	case n < 256:
+		return "<256"
+	case n < 4096:
+		return "256..4095"
+	case n < 4352:
+		return "4096..4351"
+	case n < 5000:
+		return "4352..4999"
+	}
+	return ">=5000"
+}
+
 func mathMax(a, b int) int {
 	if a > b {
 		return a
@@ -571,6 +590,7 @@ func c15RunMixed(c *core.Ctx, k c15Case) *c15Out {
 	r := newC15Rec()
 	rng := rand.New(rand.NewSource(k.Seed))
 	var quiet atomic.Bool
+	var stallWrites atomic.Int64 // Writes of the stalled direction that went through
 	type worker struct {
 		done chan struct{}
 		end  c15End
@@ -633,6 +653,9 @@ func c15RunMixed(c *core.Ctx, k c15Case) *c15Out {
 						if err != nil && !stderror.IsTimeout(err) {
 							return
 						}
+						if err == nil {
+							stallWrites.Add(1)
+						}
 					}
 					return
 				}
@@ -681,12 +704,29 @@ func c15RunMixed(c *core.Ctx, k c15Case) *c15Out {
 	if k.Kind == "stall" {
 		// the ender lands when the stalled direction has been written completely (every queue on the way
 		// is as full as it gets), or after TrafficMs if the writer is parked by back-pressure (UDP)
+		// (UDP: window 0; with a write deadline every Write then ends in a timeout). "Parked" is observed,
+		// not assumed: no Write of the stalled direction has completed for 700 ms (a Write that goes
+		// through takes well under 10 ms), at the latest after TrafficMs.
 		for _, wk := range workers {
 			if wk.what == "W" && wk.end.sess == 0 && wk.end.side != k.StallSide {
-				select {
-				case <-wk.done:
-					time.Sleep(200 * time.Millisecond)
-				case <-time.After(time.Duration(k.TrafficMs) * time.Millisecond):
+				limit := time.After(time.Duration(k.TrafficMs) * time.Millisecond)
+				last, lastAt := stallWrites.Load(), time.Now()
+			waitFull:
+				for {
+					select {
+					case <-wk.done:
+						time.Sleep(200 * time.Millisecond)
+						break waitFull
+					case <-limit:
+						break waitFull
+					case <-time.After(50 * time.Millisecond):
+						if n := stallWrites.Load(); n != last {
+							last, lastAt = n, time.Now()
+						} else if n > 0 && time.Since(lastAt) > 700*time.Millisecond {
+							o.hist["stall_writer_parked_after_writes_"+c15Bucket(int(n))] = ""
+							break waitFull
+						}
+					}
 				}
 			}
 		}
@@ -749,7 +789,7 @@ func c15RunMixed(c *core.Ctx, k c15Case) *c15Out {
 			// known finding: the event loop of this side is parked in deliverSegmentToSession behind the
 			// connection whose application stopped reading; it does not read the TCP connection, so
 			// neither the peer's close nor the loss of the connection is noticed
-			o.violate("C15/hang/behind-stalled-session-tcp", "%s at the %s end of connection %d had not returned %d ms after %s: the %s side's event loop is parked behind connection 0, whose application stopped reading; goroutines of the project: %s",
+			o.violate(c15KnownHOL, "%s at the %s end of connection %d had not returned %d ms after %s: the %s side's event loop is parked behind connection 0, whose application stopped reading; goroutines of the project: %s",
 				wk.what, wk.end.side, wk.end.sess, c15BoundMs+c15PropMs, k.Ender, wk.end.side, c15SigSummary())
 			continue
 		}
@@ -1064,6 +1104,8 @@ func c15RunOnce(c *core.Ctx, k c15Case) *c15Out {
 		return c15RunClosers(c, k)
 	case "api":
 		return c15RunAPI(c, k)
+	case "gate":
+		return c15RunGate(c, k)
 	}
 	return &c15Out{setupErr: fmt.Errorf("unknown kind %q", k.Kind)}
 }
@@ -1078,9 +1120,27 @@ var (
 	c15BudgetEnd = time.Now().Add(24 * time.Hour)
 )
 
+// per-case wall time, for the timing note of the run (and VH_DEBUG)
+type c15Timing struct {
+	kind string
+	d    time.Duration
+	desc string
+}
+
+var (
+	c15TimesMu sync.Mutex
+	c15Times   []c15Timing
+)
+
 // c15Check runs one case; a verdict is reported only if it reproduces in 2 of 3 re-runs.
 func c15Check(c *core.Ctx, k c15Case) {
 	key, _ := json.Marshal(k)
+	t0 := time.Now()
+	defer func() {
+		c15TimesMu.Lock()
+		c15Times = append(c15Times, c15Timing{k.Kind + "-" + c15Transport(k.UDP), time.Since(t0), string(key)})
+		c15TimesMu.Unlock()
+	}()
 	if time.Now().After(c15BudgetEnd) {
 		c15ConfirmMu.Lock()
 		c15Skipped++
@@ -1109,6 +1169,23 @@ func c15Check(c *core.Ctx, k c15Case) {
 	}
 	c15ConfirmMu.Lock()
 	defer c15ConfirmMu.Unlock()
+	// the recorded known finding is reported as seen (it cannot fail the run); everything else in the
+	// same case still goes through the re-runs
+	var rest []c15Finding
+	for _, f := range o.finds {
+		if f.key == c15KnownHOL {
+			if !c15Reported[f.key] {
+				c15Reported[f.key] = true
+				c.Violate(f.key, f.what, k)
+			}
+			continue
+		}
+		rest = append(rest, f)
+	}
+	o.finds = rest
+	if len(o.finds) == 0 {
+		return
+	}
 	// keys already reported need no second confirmation; and a tree that hangs everywhere must not
 	// spend the whole budget on re-runs
 	fresh := false
@@ -1163,6 +1240,50 @@ func c15Check(c *core.Ctx, k c15Case) {
 			c.Disagree(f.key, f.what, k)
 		} else {
 			c.Violate(f.key, f.what, k)
+		}
+	}
+}
+
+// c15TimingNote reports where the wall time of the run went (per kind: cases, total and slowest).
+func c15TimingNote(c *core.Ctx, tRun, tBatch time.Time, dBatch time.Duration) {
+	c15TimesMu.Lock()
+	defer c15TimesMu.Unlock()
+	type agg struct {
+		n        int
+		sum, max time.Duration
+	}
+	per := map[string]*agg{}
+	for _, t := range c15Times {
+		a := per[t.kind]
+		if a == nil {
+			a = &agg{}
+			per[t.kind] = a
+		}
+		a.n++
+		a.sum += t.d
+		if t.d > a.max {
+			a.max = t.d
+		}
+	}
+	var ks []string
+	for k := range per {
+		ks = append(ks, k)
+	}
+	sort.Strings(ks)
+	var parts []string
+	for _, k := range ks {
+		a := per[k]
+		parts = append(parts, fmt.Sprintf("%s n=%d sum=%.0fs max=%.1fs", k, a.n, a.sum.Seconds(), a.max.Seconds()))
+	}
+	c.Note("C15 timing: serial phase (leak cases, run alone) %.0f s, parallel batch %.0f s, after the batch %.0f s; per kind: %s",
+		tBatch.Sub(tRun).Seconds(), dBatch.Seconds(), time.Since(tBatch.Add(dBatch)).Seconds(), strings.Join(parts, "; "))
+	if os.Getenv("VH_DEBUG") != "" {
+		sort.Slice(c15Times, func(i, j int) bool { return c15Times[i].d > c15Times[j].d })
+		for i, t := range c15Times {
+			if i >= 25 {
+				break
+			}
+			fmt.Fprintf(os.Stderr, "C15 slow case %.1fs %s\n", t.d.Seconds(), t.desc)
 		}
 	}
 }
@@ -1282,6 +1403,110 @@ func c15GenStall(r *rand.Rand) c15Case {
 		k.WriteDeadline = 300 + r.Intn(300)
 	}
 	return k
+}
+
+// c15BoundaryCases are generated on every run (quick and thorough), before the random stream: every
+// boundary the property's quantifier names. Deadlines: already over, 1 ms, cleared, changed before
+// firing, in force across a fed and then two starved Reads (multi-call), across a 70000-byte Write
+// (many chunks) and across Write-then-Read on a client (implicit response deadline vs the user's), at
+// both ends on both transports. Idle periods above the 5 s housekeeping tick before a client / server
+// Mux.Close, a session Close and an underlay loss (below the tick: the random cases and the forced
+// ender x transport grid). Closer counts 2 and 8.
+func c15BoundaryCases(thorough bool) []c15Case {
+	var out []c15Case
+	seed := int64(1500)
+	for _, udp := range []bool{false, true} {
+		for _, end := range []string{"c", "s"} {
+			seed++
+			out = append(out, c15Case{Kind: "deadline", Seed: seed, UDP: udp, Sessions: 1, End: end, Steps: []c15Step{
+				{Op: "sr", D: -100}, {Op: "r", N: 10}, // already over
+				{Op: "sr", D: 1}, {Op: "r", N: 10}, // 1 ms
+				{Op: "sr", D: 0}, {Op: "r", N: 64, WatchMs: 800}, // cleared: parks until the peer speaks
+				{Op: "sr", D: 250}, {Op: "sr", D: 800}, {Op: "r", N: 16}, // changed before it fires
+				{Op: "sr", D: 400}, {Op: "pw", N: 1}, {Op: "r", N: 1}, {Op: "r", N: 16}, {Op: "r", N: 16}, // multi-call: fed, starved, starved after the deadline
+				{Op: "sw", D: 400}, {Op: "w", N: 70000}, {Op: "w", N: 1}, {Op: "w", N: 0}, // many chunks, one byte, nothing
+				{Op: "sb", D: 300}, {Op: "pw", N: 100}, {Op: "r", N: 4096}, {Op: "w", N: 10}, {Op: "r", N: 10},
+				{Op: "sr", D: 500}, {Op: "w", N: 2000}, {Op: "r", N: 100}, // a client's Write must not replace the user's deadline
+				{Op: "sb", D: 0}, {Op: "w", N: 3000}, // cleared again: later calls are unbounded
+			}})
+		}
+	}
+	// the client's implicit response deadline: a Write, then a Read with a silent server and no user
+	// deadline ends after 10 s (and not before, and not never)
+	for _, udp := range []bool{false, true} {
+		seed++
+		out = append(out, c15Case{Kind: "deadline", Seed: seed, UDP: udp, Sessions: 1, End: "c", Steps: []c15Step{
+			{Op: "sr", D: 0}, {Op: "w", N: 2000}, {Op: "r", N: 10, WatchMs: 11500}, {Op: "r", N: 10, WatchMs: 700}}})
+	}
+	idle := []struct {
+		ender string
+		udp   bool
+	}{{"cmux", false}, {"smux", true}, {"sclose-s", false}, {"fault", true}}
+	if thorough {
+		idle = nil
+		for _, e := range c15Enders {
+			idle = append(idle, struct {
+				ender string
+				udp   bool
+			}{e, false}, struct {
+				ender string
+				udp   bool
+			}{e, true})
+		}
+	}
+	for i, x := range idle {
+		seed++
+		out = append(out, c15Case{Kind: "mixed", Seed: seed, UDP: x.udp, Multiplex: i % 3, Sessions: 1 + i%3, Ender: x.ender, Closers: 1 + i%2,
+			TrafficMs: 200, IdleMs: 5500 + 100*i, Chunk: 1400, ServerFirst: i%2 == 0})
+	}
+	for i, n := range []int{2, 8} {
+		seed++
+		out = append(out, c15Case{Kind: "closers", Seed: seed, UDP: i%2 == 0, End: []string{"c", "s"}[i%2], Closers: n, Sessions: 1})
+	}
+	return out
+}
+
+// c15Cost estimates the wall time of a case in seconds; the batch is dispatched longest first so that
+// no long case starts when the others have finished.
+func c15Cost(k c15Case) float64 {
+	switch k.Kind {
+	case "stall":
+		if !k.UDP && k.Ender != "sclose-"+k.StallSide {
+			return 30 // may reproduce the known finding: waits out the whole bound
+		}
+		return 10
+	case "api":
+		if k.Ender == "slowloris" {
+			return 16
+		}
+		return 3
+	case "mixed":
+		c := float64(k.TrafficMs+k.IdleMs)/1000 + 1
+		if !k.UDP {
+			c += 1.2 * float64(mathMax(1, k.Sessions))
+		}
+		return c
+	case "gate":
+		if k.UDP {
+			return 2
+		}
+		return 2 + 1.2*float64(k.Sessions)
+	case "deadline":
+		c := 0.5
+		for _, st := range k.Steps {
+			switch st.Op {
+			case "r", "w":
+				c += 0.3
+			case "sleep":
+				c += float64(st.D) / 1000
+			}
+			if st.WatchMs > 0 {
+				c += float64(st.WatchMs) / 1000
+			}
+		}
+		return c
+	}
+	return 0.5
 }
 
 func c15GenLeak(r *rand.Rand, i int) c15Case {
@@ -1411,6 +1636,7 @@ func init() {
 			c.Correspondence("c15-deadline: observed sequential deadline histories vs Mieru.Deadline.acceptAll (the code's readDeadline/writeDeadline/respDeadline)")
 			c.Correspondence("c15-closers: n concurrent Close calls vs the CAS-guarded closer model")
 			race := os.Getenv("VH_C15_RACE") != ""
+			tRun := time.Now()
 			if c.Thorough() {
 				c15BudgetEnd = time.Now().Add(45 * time.Minute)
 			} else {
@@ -1437,8 +1663,20 @@ func init() {
 					c15Check(c, k)
 				}
 			}
+			if !race {
+				// the boundaries the quantifier names: on every run, before the random stream
+				for _, k := range c15BoundaryCases(c.Thorough()) {
+					c.Hist("boundary", k.Kind+"-"+c15Transport(k.UDP)+"-"+k.End+k.Ender)
+					cases = append(cases, k)
+				}
+				// every place where an event loop arms a read timeout, raced deterministically with Close
+				for _, k := range c15GateCases() {
+					c.Hist("boundary", fmt.Sprintf("gate-%s-%s-%s-%d", k.Ender, k.End, c15Transport(k.UDP), k.Sessions))
+					cases = append(cases, k)
+				}
+			}
 			ncorpus := len(cases)
-			nd, nm, nst, ncl := c.N(24, 240), c.N(20, 200), c.N(6, 48), c.N(6, 40)
+			nd, nm, nst, ncl := c.N(20, 240), c.N(20, 200), c.N(6, 48), c.N(4, 40)
 			if race {
 				nd, nm, nst, ncl = 4, 10, 2, 4
 			}
@@ -1446,17 +1684,38 @@ func init() {
 				cases = append(cases, c15GenDeadline(c.Rand, c.Thorough()))
 			}
 			for i := 0; i < nm; i++ {
-				cases = append(cases, c15GenMixed(c.Rand, c.Thorough()))
+				k := c15GenMixed(c.Rand, c.Thorough())
+				if i < 2*len(c15Enders) {
+					// every ender on both transports on every run; connection counts 1 and 4 (the extremes) alternate
+					k.Ender, k.UDP = c15Enders[i%len(c15Enders)], i >= len(c15Enders)
+					if i%2 == 0 {
+						k.Sessions = []int{1, 4}[(i/2)%2]
+						k.EnderSess %= k.Sessions
+					}
+				}
+				cases = append(cases, k)
 			}
 			for i := 0; i < nst; i++ {
-				cases = append(cases, c15GenStall(c.Rand))
+				k := c15GenStall(c.Rand)
+				if i < 4 {
+					// both transports x both sides stalled on every run
+					k.UDP, k.StallSide = i%2 == 1, []string{"c", "s"}[i/2]
+					if strings.HasPrefix(k.Ender, "sclose-") && k.EnderSess == 0 && k.Multiplex == 20 && k.Sessions >= 2 {
+						k.Ender = "sclose-" + k.StallSide // keep the "stalled application closes its own connection" variant consistent
+					}
+					if !k.UDP {
+						k.WriteDeadline = 0
+					}
+				}
+				cases = append(cases, k)
 			}
 			for i := 0; i < ncl; i++ {
 				cases = append(cases, c15Case{Kind: "closers", Seed: c.Rand.Int63(), UDP: i%2 == 0, End: []string{"c", "s"}[c.Rand.Intn(2)], Closers: 2 + c.Rand.Intn(7), Sessions: 1})
 			}
 			if !race {
 				for i, na := 0, c.N(4, 24); i < na; i++ {
-					k := c15Case{Kind: "api", Seed: c.Rand.Int63(), UDP: i%2 == 1, Multiplex: c.Rand.Intn(2), Sessions: 1, ServerFirst: c.Rand.Intn(2) == 0, TrafficMs: 50 + c.Rand.Intn(400)}
+					// transport x handshake mode (standard / no-wait) grid on every run
+					k := c15Case{Kind: "api", Seed: c.Rand.Int63(), UDP: i%2 == 1, Multiplex: (i / 2) % 2, Sessions: 1, ServerFirst: c.Rand.Intn(2) == 0, TrafficMs: 50 + c.Rand.Intn(400)}
 					if c.Thorough() && i%6 == 0 {
 						k.Ender = "slowloris"
 					}
@@ -1466,12 +1725,17 @@ func init() {
 			c.Sample(cases[ncorpus])
 			c.Sample(cases[ncorpus+nd])
 			c.Sample(cases[ncorpus+nd+nm])
+			// dispatch longest first (the cases themselves were generated above, in a fixed order)
+			sort.SliceStable(cases, func(i, j int) bool { return c15Cost(cases[i]) > c15Cost(cases[j]) })
 			workers := 8
 			if race {
 				workers = 4
 			}
+			tBatch := time.Now()
 			core.Parallel(len(cases), workers, func(i int) { c15Check(c, cases[i]) })
+			dBatch := time.Since(tBatch)
 			bgClose.Wait(60 * time.Second)
+			c15TimingNote(c, tRun, tBatch, dBatch)
 			if c15Skipped > 0 {
 				c.Note("C15: %d generated cases were not run: the time budget of the run was used up by cases that hang", c15Skipped)
 				c.Res.Discarded += c15Skipped
